@@ -278,6 +278,29 @@ def run(res, tier, seed, replay_script=None):
                 stats["slow_calls_skipped"] = stats.get("slow_calls_skipped", 0) + 1     # completed under the long limit (or not re-run): slow, not a hang
                 aborted = True
                 break
+            if st.exc is not None and st.exc[0] == "hang":
+                # the statement promises termination "when the limits leave no admissible new point": all limits non-negative and every
+                # point of the box already present.  A growth loop that spins while admissible points remain (extreme anisotropic weights
+                # from noisy data need astronomically many level increments to reach the last point, or a dimension is unrestricted) is
+                # outside that clause: counted, not reported.
+                lim = eff_at.get(si + 1) or eff_at.get(si) or []
+                saturated = bool(lim) and all(v >= 0 for v in lim) and t[0] in ("refaniso", "refsurp", "refsimple", "update")
+                if saturated:
+                    box = 1
+                    for j in range(d):
+                        cnt = 0
+                        while cnt < 100000 and level_of(spec, numpoints, cnt) <= lim[j]:
+                            cnt += 1
+                        box *= cnt
+                    inside = set()
+                    for i in range(0, len(last_loaded), d):
+                        if all(level_of(spec, numpoints, last_loaded[i + j]) <= lim[j] for j in range(d)):
+                            inside.add(tuple(last_loaded[i:i + d]))
+                    saturated = (len(inside) >= box)
+                if not saturated:
+                    stats["unbounded_growth_outside_the_termination_clause"] = stats.get("unbounded_growth_outside_the_termination_clause", 0) + 1
+                    aborted = True
+                    break
             if st.exc is not None and (st.exc[0] == "hang" or st.exc[0].startswith("crash")):
                 stats["violations"] += 1
                 key = ("does-not-terminate:" if st.exc[0] == "hang" else "crash:") + t[0] + ":" + fam
@@ -393,6 +416,7 @@ def run(res, tier, seed, replay_script=None):
     if not ok_ext and not res.violations:
         res.violation("extraction", "extraction of the model failed", {"kind": "proof-break", "log": elog[-2000:]}, no_input=True)
     res.coverage["slow_calls_completed_under_the_long_limit_skipped"] = stats.get("slow_calls_skipped", 0)
+    res.coverage["calls_not_returning_while_admissible_points_remain_not_judged"] = stats.get("unbounded_growth_outside_the_termination_clause", 0)
     res.coverage.update({
         "evaluations": stats["states"] + len(ucases), "distinct_nontrivial": nontrivial,
         "rule": "case = make (random family, nested rules; limits given at make in half of the cases) ; load ; 1-6 of: refinement of a random strategy / "
